@@ -594,24 +594,27 @@ func ruleOwnerCheck(c *Ctx, rule string, handlers map[string]*ssa.Function) {
 		bad := ""
 		n := 0
 		for _, ret := range returnsOf(tcpGet) {
-			v := w.resolveLoad(ret.Results[0])
-			if isNilConst(stripIface(v)) {
-				continue
-			}
-			n++
-			found := false
-			for _, f := range w.factsAt(ret) {
-				if f.Op == "==" && f.Truth {
-					for _, pair := range [][2]ssa.Value{{f.X, f.Y}, {f.Y, f.X}} {
-						_, fl, isL := fieldLoad(pair[0])
-						if isL && fl == uid && w.sameKey(pair[1], tcpGet.Params[1]) {
-							found = true
+			// (a result variable filled on one branch is judged where it is filled)
+			for _, lf := range w.guardedLeaves(ret.Results[0], ret) {
+				v := w.resolveLoad(lf.val)
+				if isNilConst(stripIface(v)) {
+					continue
+				}
+				n++
+				found := false
+				for _, f := range lf.facts {
+					if f.Op == "==" && f.Truth {
+						for _, pair := range [][2]ssa.Value{{f.X, f.Y}, {f.Y, f.X}} {
+							_, fl, isL := fieldLoad(pair[0])
+							if isL && fl == uid && w.sameKey(pair[1], tcpGet.Params[1]) {
+								found = true
+							}
 						}
 					}
 				}
-			}
-			if !found {
-				bad = "returns a connection at " + w.instrPos(ret) + " without the test a.userID == userID"
+				if !found {
+					bad = "returns a connection at " + w.instrPos(ret) + " without the test a.userID == userID"
+				}
 			}
 		}
 		if bad == "" && n > 0 {
